@@ -1,0 +1,12 @@
+//go:build verif
+
+// Contracts for stream encoders (read as text by /verif's govc; comment-only).
+
+package encoding
+
+//@ # ghost: a complete encoding has been written to this writer
+//@ ghost SpecEncodedTo map[io.Writer]bool
+//@ trusted func (e Encoder) EncodeStream(ctx context.Context, w io.Writer, value any) (err error)
+//@   ensures err == nil ==> SpecEncodedTo[w]
+//@   ensures forall x io.Writer :: x != w ==> SpecEncodedTo[x] == old(SpecEncodedTo[x])
+//@   modifies SpecEncodedTo
